@@ -189,6 +189,21 @@ func (br *bodyRun) callStatic(st *State, fn *ssa.Function, bindings []Val, argVa
 		if fn.Pkg != nil {
 			pkg = fn.Pkg.Pkg
 		}
+		// a closure's contract may name the variables it captures: they are read through the
+		// bindings of this closure value, in whichever state a clause is evaluated
+		br.callCells = nil
+		for i, fv := range fn.FreeVars {
+			if i < len(bindings) {
+				if pv, ok := bindings[i].(PtrV); ok {
+					if pt, ok := fv.Type().(*types.Pointer); ok {
+						if br.callCells == nil {
+							br.callCells = map[string]cellRef{}
+						}
+						br.callCells[fv.Name()] = cellRef{pv, pt.Elem()}
+					}
+				}
+			}
+		}
 		return br.applyContract(st, ct, key, names, argT, args, fn.Signature, rt, x, pkg)
 	}
 	if (ct != nil && ct.Inline) || fc.eng.autoInline(fn) {
@@ -566,7 +581,8 @@ func (br *bodyRun) applyContract(st *State, ct *Contract, key string, names []st
 	short := shortKey(key)
 	fc.callOrd[short]++
 	ord := fc.callOrd[short]
-	env := &SpecEnv{fc: fc, st: st, old: st, pkg: pkg, vars: map[string]TV{}, alias: fc.eng.aliasFor(fc.eng.fnByKey[fc.eng.fullKey(key)])}
+	env := &SpecEnv{fc: fc, st: st, old: st, pkg: pkg, vars: map[string]TV{}, alias: fc.eng.aliasFor(fc.eng.fnByKey[fc.eng.fullKey(key)]), cells: br.callCells}
+	br.callCells = nil
 	if pkg == nil {
 		env.pkg = br.fn.Pkg.Pkg
 	}
@@ -657,7 +673,7 @@ func (br *bodyRun) applyContract(st *State, ct *Contract, key string, names []st
 			fc.assume(st, fc.typeInv(st, rt, res))
 		}
 	}
-	penv := &SpecEnv{fc: fc, st: st, old: pre, pkg: env.pkg, vars: map[string]TV{}, alias: env.alias}
+	penv := &SpecEnv{fc: fc, st: st, old: pre, pkg: env.pkg, vars: map[string]TV{}, alias: env.alias, cells: env.cells}
 	for k, v := range env.vars {
 		penv.vars[k] = v
 	}
